@@ -17,7 +17,7 @@ from ..callgraph import CallGraph, CallSite
 from ..effects import classify_external, classify_method, open_mode
 from ..model import ClassInfo, FuncInfo, Repo, dotted, load_repo, opcode_registry
 from ..report import VERIF, AnalysisError, Report
-from ..util import body_walk, cmp_normal, src
+from ..util import cli_args_name, body_walk, cmp_normal, src
 
 # Named exemptions: one symbol each, with the reason.
 EXEMPT_OPEN = {
@@ -34,6 +34,25 @@ DYNAMIC_TABLE = {
     ("fickling.fickle.ConstantOpcode.new", "subclass"): "constant-ctors",
     ("fickling.fickle.StackSliceOpcode.__init_subclass__.<locals>.run_wrapper", "orig_run"): "slice-runs",
 }
+
+
+def dyn_kind(site: CallSite):
+    """Resolve an audited dynamic-dispatch site structurally (not by the spelling of local variable names)."""
+    if not site.dynamic:
+        return None
+    k = DYNAMIC_TABLE.get((site.func.qualname, site.dynamic))
+    if k is not None:
+        return k
+    callee = site.node.func if isinstance(site.node, ast.Call) else None
+    q = site.func.qualname
+    if q == "fickling.fickle.Opcode.__new__" and isinstance(callee, ast.Subscript) and dotted(callee.value) == "OPCODES_BY_NAME":
+        return "opcode-ctors"
+    if q == "fickling.fickle.ConstantOpcode.new" and isinstance(callee, ast.Name):
+        # the loop variable ranging over ConstantOpcode.ConstantOpcodePriorities
+        for n in ast.walk(site.func.node):
+            if isinstance(n, ast.For) and any(isinstance(t, ast.Name) and t.id == callee.id for t in ast.walk(n.target)) and "ConstantOpcodePriorities" in ast.unparse(n.iter):
+                return "constant-ctors"
+    return None
 
 
 def entry_points(repo: Repo) -> List[Tuple[FuncInfo, Optional[List[ast.AST]], str]]:
@@ -100,18 +119,19 @@ def entry_points(repo: Repo) -> List[Tuple[FuncInfo, Optional[List[ast.AST]], st
 def cli_restricted_roots(main: FuncInfo) -> List[ast.AST]:
     """Statements of cli.main minus the --inject arm and the --create arm."""
     body = list(main.node.body)
+    an = cli_args_name(main.node)
     out: List[ast.AST] = []
     found_create = found_inject = False
     for st in body:
         if isinstance(st, ast.If):
             c = cmp_normal(st.test)
-            if c and dotted(c[0]) == "args.create" and c[1] in ("is", "=="):
+            if c and dotted(c[0]) == f"{an}.create" and c[1] in ("is", "=="):
                 found_create = True
                 out.append(st.test)
                 for s2 in st.body:
                     if isinstance(s2, ast.If):
                         c2 = cmp_normal(s2.test)
-                        if c2 and dotted(c2[0]) == "args.inject" and c2[1] in ("is not", "!="):
+                        if c2 and dotted(c2[0]) == f"{an}.inject" and c2[1] in ("is not", "!="):
                             found_inject = True
                             out.append(s2.test)
                             out.extend(s2.orelse)  # elif check_safety ... else decompile
@@ -131,7 +151,7 @@ def analysis_reach(repo: Repo, cg: CallGraph, eps):
     def extra(s: CallSite):
         out = set()
         if s.dynamic:
-            kind = DYNAMIC_TABLE.get((s.func.qualname, s.dynamic))
+            kind = dyn_kind(s)
             if kind == "opcode-ctors":
                 for oc in ops:
                     out |= cg.class_ctor_targets(oc.cls)
@@ -255,7 +275,7 @@ def judge_sites(repo, cg, rep, reached, parent, sites, unaudited, distinct_ext, 
                     v = "inert"
             verdicts.append((v, f"<untyped>.{name}"))
         if s.dynamic and not fixture_mode:
-            if (f.qualname, s.dynamic) in DYNAMIC_TABLE:
+            if dyn_kind(s) is not None:
                 verdicts.append(("inert", f"dynamic:{s.dynamic}"))
             else:
                 verdicts.append(("unaudited", f"dynamic call of `{s.dynamic}`"))
